@@ -12,7 +12,7 @@ def components():
 
 
 def oracles_():
-    return [oracles.RoundTrip(), comps_doc.RoundTripX(), comps_doc.RoundTripMeta(), comps_doc.RoundTripTypes()]
+    return [oracles.RoundTrip(), comps_doc.RoundTripX(), comps_doc.RoundTripMeta(), comps_doc.RoundTripTypes(), comps_doc.LybCollisionRT()]
 
 MANIFEST = {
     "text": "Coq theorems: (XML) the text printer/lexer pair is an exact round trip for every string of accepted characters of any "
@@ -21,8 +21,13 @@ MANIFEST = {
             "(C01_json_string_roundtrip*); (LYB) for every well-bracketed script of sibling starts/stops and writes of any size "
             "the chunked writer's output is read back by the reader as the same payloads, parametric in LYB_SIZE_MAX "
             "(C01_lyb_chunk_roundtrip), the writer fails only through its LOGINT branches, and the printed hash sequence of a "
-            "sibling identifies it among its siblings (C01_lyb_hashseq_identifies; totality of hashing is refuted = finding "
-            "lyb-hash-collision). Tie: scraped escape tables and LYB constants (T1), differential runs of the extracted models "
+            "sibling identifies it among its siblings at ANY collision depth (C01_lyb_hashseq_identifies: reader model = "
+            "lyb_parse_schema_hash comparing every collision id, cached or generated; depth-4 Example from the collision "
+            "corpus; totality of hashing is refuted = finding lyb-hash-collision). corpus/lyb_collisions.txt: sibling-name "
+            "families colliding to depth 1..6 and 8 (birthday search with the Python model of lyb_generate_hash, re-checked "
+            "at load time, every name run on every collision id against the library and the extracted model by LybHashGen, "
+            "the families as sibling sets by LybSiblings, and as modules / instances through lyd_print / lyd_parse by the "
+            "oracle LybCollisionRT). Tie: scraped escape tables and LYB constants (T1), differential runs of the extracted models "
             "against the static C functions incl. byte-identical LYB chunk streams around the 65535 boundary (T2). "
             "DOCUMENT LEVEL (slice doc, Tree subset: one data module, no anydata / opaque / union): xml_print = transcription of "
             "printer_xml.c (shrink mode; namespace-declaration stack, metadata attributes, any node selection); "
